@@ -120,10 +120,57 @@ theorem recheckFromCache_next (s : St) (p : Path) (a : Addr) (m : Method) :
 
 /-! ## `move_to_cache` -/
 
+theorem deref_cache (s : St) (p : Path) : (s.deref p).cache = s.cache := by
+  unfold St.deref; split
+  · split <;> rfl
+  · rfl
+
+theorem deref_recs (s : St) (p : Path) : (s.deref p).recs = s.recs := by
+  unfold St.deref; split
+  · split <;> rfl
+  · rfl
+
+theorem deref_next (s : St) (p : Path) : (s.deref p).next = s.next := by
+  unfold St.deref; split
+  · split <;> rfl
+  · rfl
+
+theorem deref_dirRo (s : St) (p : Path) : (s.deref p).dirRo = s.dirRo := by
+  unfold St.deref; split
+  · split <;> rfl
+  · rfl
+
+theorem deref_ws_other (s : St) (p q : Path) (h : q ≠ p) : (s.deref p).ws q = s.ws q := by
+  unfold St.deref; split
+  · split
+    · show upd s.ws p _ q = s.ws q
+      exact upd_other _ _ h
+    · rfl
+  · rfl
+
+/-- what `deref` leaves at the path as a file is what could be read through the path before -/
+theorem deref_file (s : St) (p : Path) (b : Bytes) (w : Bool) (st : Nat) (l : Option Addr)
+    (h : (s.deref p).ws p = some (.file b w st l)) : ∃ n, s.readThrough p = some (b, n) := by
+  unfold St.deref at h
+  split at h
+  · rename_i a' hs
+    split at h
+    · rename_i o ho
+      have h' : upd s.ws p (some (Entry.file o.b true s.clock none)) p = some (.file b w st l) := h
+      simp at h'
+      refine ⟨o.stamp, ?_⟩
+      simp [St.readThrough, hs, ho, h'.1]
+    · rw [hs] at h; cases h
+  · exact ⟨st, by simp [St.readThrough, h]⟩
+
 theorem moveToCache_from (s : St) (p : Path) (a : Addr)
-    (h : ∀ b w st l, s.ws p = some (.file b w st l) → HashOf a.d b) :
+    (h : ∀ b n, s.readThrough p = some (b, n) → HashOf a.d b) :
     CacheFrom s (s.moveToCache p a).1 := by
   unfold St.moveToCache
+  have hc := deref_cache s p
+  have hf := deref_file s p
+  generalize s.deref p = s0 at hc hf ⊢
+  simp only
   split
   · rename_i b w st l hw
     intro a' o ho
@@ -131,45 +178,87 @@ theorem moveToCache_from (s : St) (p : Path) (a : Addr)
     by_cases ha : a' = a
     · subst ha
       simp at ho; subst ho
-      exact Or.inr ⟨h b w st l hw, rfl⟩
+      obtain ⟨n, hn⟩ := hf b w st l hw
+      exact Or.inr ⟨h b n hn, rfl⟩
     · rw [upd_other _ _ ha] at ho
-      exact Or.inl ho
-  · intro a' o ho
-    simp only [setCache_cache] at ho
-    by_cases ha : a' = a
-    · subst ha; simp at ho
-    · rw [upd_other _ _ ha] at ho
-      exact Or.inl ho
-  · exact CacheFrom.refl s
+      have ho' : s0.cache a' = some o := ho
+      rw [hc] at ho'
+      exact Or.inl ho'
+  · exact cacheFrom_of_eq hc
+  · exact cacheFrom_of_eq hc
 
 theorem moveToCache_keep (s : St) (p : Path) (a : Addr) (h : s.cache a = none) :
     CacheKeep s (s.moveToCache p a).1 := by
   unfold St.moveToCache
+  have hc := deref_cache s p
+  generalize s.deref p = s0 at hc ⊢
+  simp only
   split
   · intro a' o ho
     simp only [setCache_cache]
     by_cases ha : a' = a
     · subst ha; rw [h] at ho; cases ho
-    · rw [upd_other _ _ ha]; exact ho
-  · intro a' o ho
-    simp only [setCache_cache]
-    by_cases ha : a' = a
-    · subst ha; rw [h] at ho; cases ho
-    · rw [upd_other _ _ ha]; exact ho
-  · exact CacheKeep.refl s
+    · rw [upd_other _ _ ha]
+      show s0.cache a' = some o
+      rw [hc]; exact ho
+  · exact cacheKeep_of_eq hc
+  · exact cacheKeep_of_eq hc
 
 theorem moveToCache_recs (s : St) (p : Path) (a : Addr) : (s.moveToCache p a).1.recs = s.recs := by
-  unfold St.moveToCache; split <;> rfl
+  unfold St.moveToCache
+  have hc := deref_recs s p
+  generalize s.deref p = s0 at hc ⊢
+  simp only
+  split <;> exact hc
 
 theorem moveToCache_next (s : St) (p : Path) (a : Addr) : (s.moveToCache p a).1.next = s.next := by
-  unfold St.moveToCache; split <;> rfl
+  unfold St.moveToCache
+  have hc := deref_next s p
+  generalize s.deref p = s0 at hc ⊢
+  simp only
+  split <;> exact hc
 
 /-! ## `carry_in` for one entity -/
 
-theorem carryOne_from (s : St) (p : Path) (a : Addr) (m : Method) (force : Bool)
-    (h : ∀ b w st l, s.ws p = some (.file b w st l) → HashOf a.d b) :
-    CacheFrom s (s.carryOne p a m force).1 := by
-  unfold St.carryOne
+theorem readThrough_of_detached (s s1 : St) (p : Path) (a : Addr) (hw : s1.ws = (s.detach a).ws)
+    (hc : s1.cache = upd s.cache a none) (b : Bytes) (n : Nat)
+    (h : s1.readThrough p = some (b, n)) : s.readThrough p = some (b, n) := by
+  cases hs : s.ws p with
+  | none =>
+    have h1 : s1.ws p = none := by rw [hw]; simp [St.detach, hs]
+    simp [St.readThrough, h1] at h
+  | some e =>
+    cases e with
+    | file b0 w0 st0 l0 =>
+      have h1 : ∃ l', s1.ws p = some (.file b0 w0 st0 l') := by
+        rw [hw]
+        cases l0 with
+        | none => exact ⟨none, by simp [St.detach, hs]⟩
+        | some a0 =>
+          by_cases ha : a0 = a
+          · exact ⟨none, by simp [St.detach, hs, ha]⟩
+          · exact ⟨some a0, by simp [St.detach, hs, ha]⟩
+      obtain ⟨l', h1⟩ := h1
+      simp [St.readThrough, h1] at h
+      simp [St.readThrough, hs, h]
+    | sym a' =>
+      have h1 : s1.ws p = some (.sym a') := by rw [hw]; simp [St.detach, hs]
+      simp only [St.readThrough, h1, hc] at h
+      by_cases ha : a' = a
+      · subst ha; simp at h
+      · rw [upd_other _ _ ha] at h
+        simp only [St.readThrough, hs]
+        exact h
+
+theorem readThrough_detach_remove (s : St) (p : Path) (a : Addr) (b : Bytes) (n : Nat)
+    (h : St.readThrough { (s.detach a).setCache a none with dirRo := upd s.dirRo a.d false } p = some (b, n)) :
+    s.readThrough p = some (b, n) :=
+  readThrough_of_detached s { (s.detach a).setCache a none with dirRo := upd s.dirRo a.d false } p a rfl rfl b n h
+
+theorem carryOneMove_from (s : St) (p : Path) (a : Addr) (m : Method) (force : Bool)
+    (h : ∀ b n, s.readThrough p = some (b, n) → HashOf a.d b) :
+    CacheFrom s (s.carryOneMove p a m force).1 := by
+  unfold St.carryOneMove
   -- first phase
   have phase1 : CacheFrom s (if (s.cache a).isSome then
       if force then
@@ -186,18 +275,8 @@ theorem carryOne_from (s : St) (p : Path) (a : Addr) (m : Method) (force : Bool)
           by_cases ha : a' = a
           · subst ha; simp at ho'
           · rw [upd_other _ _ ha] at ho'; exact Or.inl ho'
-        have hws : ∀ b w st l, s1.ws p = some (.file b w st l) → HashOf a.d b := by
-          intro b w st l hw
-          have hw' : (s.detach a).ws p = some (.file b w st l) := hw
-          unfold St.detach at hw'
-          simp only at hw'
-          split at hw'
-          · rename_i b0 w0 st0 a0 hs
-            split at hw'
-            · simp at hw'; obtain ⟨rfl, _, _, _⟩ := hw'; exact h b0 w0 st0 _ hs
-            · simp at hw'; obtain ⟨rfl, _, _, _⟩ := hw'; exact h b0 w0 st0 _ hs
-          · rename_i hne
-            exact h b w st l hw'
+        have hws : ∀ b n, s1.readThrough p = some (b, n) → HashOf a.d b :=
+          fun b n hr => h b n (readThrough_detach_remove s p a b n hr)
         exact h1.trans (moveToCache_from s1 p a hws)
       · exact CacheFrom.refl s
     · exact moveToCache_from s p a h
@@ -218,9 +297,9 @@ theorem carryOne_from (s : St) (p : Path) (a : Addr) (m : Method) (force : Bool)
   | refused => exact phase1
   | panic => exact phase1
 
-theorem carryOne_keep (s : St) (p : Path) (a : Addr) (m : Method) :
-    CacheKeep s (s.carryOne p a m false).1 := by
-  unfold St.carryOne
+theorem carryOneMove_keep (s : St) (p : Path) (a : Addr) (m : Method) :
+    CacheKeep s (s.carryOneMove p a m false).1 := by
+  unfold St.carryOneMove
   have phase1 : CacheKeep s (if (s.cache a).isSome then
       if false = true then
         St.moveToCache { (s.detach a).setCache a none with dirRo := upd s.dirRo a.d false } p a
@@ -249,6 +328,40 @@ theorem carryOne_keep (s : St) (p : Path) (a : Addr) (m : Method) :
     split <;> simp
   | refused => exact phase1
   | panic => exact phase1
+
+theorem linksTo_spec {s : St} {p : Path} {a : Addr} (h : s.linksTo p a = true) :
+    s.ws p = some (.sym a) ∧ (s.cache a).isSome = true := by
+  unfold St.linksTo at h
+  simp only [Bool.and_eq_true] at h
+  obtain ⟨h1, h2⟩ := h
+  refine ⟨?_, h2⟩
+  split at h1
+  · rename_i a' hs
+    simp at h1; rw [hs, h1]
+  · cases h1
+
+theorem linksTo_readThrough {s : St} {p : Path} {a : Addr} (h : s.linksTo p a = true) :
+    (s.readThrough p).isSome = true := by
+  obtain ⟨h1, h2⟩ := linksTo_spec h
+  cases hc : s.cache a with
+  | none => simp [hc] at h2
+  | some o => simp [St.readThrough, h1, hc]
+
+theorem carryOne_from (s : St) (p : Path) (a : Addr) (m : Method) (force : Bool)
+    (h : ∀ b n, s.readThrough p = some (b, n) → HashOf a.d b) :
+    CacheFrom s (s.carryOne p a m force).1 := by
+  unfold St.carryOne
+  split
+  · apply cacheFrom_of_eq; rw [recheckFromCache_cache]; rfl
+  · exact carryOneMove_from s p a m force h
+
+/-- also with `--force`: nothing is removed when the path is a link to the object itself -/
+theorem carryOne_keep (s : St) (p : Path) (a : Addr) (m : Method) :
+    CacheKeep s (s.carryOne p a m false).1 := by
+  unfold St.carryOne
+  split
+  · apply cacheKeep_of_eq; rw [recheckFromCache_cache]; rfl
+  · exact carryOneMove_keep s p a m
 
 /-- reading through a regular file entry gives its bytes -/
 theorem readThrough_file {s : St} {p : Path} {b : Bytes} {w : Bool} {st : Nat} {l : Option Addr}
